@@ -465,6 +465,10 @@ func (db *RockDB) ZRem(ts int64, key []byte, members ...[]byte) (int64, error) {
 	if err != nil {
 		return 0, err
 	}
+	if keyInfo.Expired {
+		// nothing alive to remove
+		return 0, nil
+	}
 	table := keyInfo.Table
 
 	wb := db.wb
@@ -700,6 +704,10 @@ func (db *RockDB) zRemRangeBytes(ts int64, key []byte, keyInfo collVerKeyInfo, o
 	err := common.CheckKey(key)
 	if err != nil {
 		return 0, err
+	}
+	if keyInfo.Expired {
+		// nothing alive to remove
+		return 0, nil
 	}
 	total, err := parseZMetaSize(keyInfo.OldHeader.UserData)
 	if err != nil {
@@ -1124,6 +1132,10 @@ func (db *RockDB) internalZRemRangeByLex(ts int64, key []byte, min []byte, max [
 	keyInfo, err := db.getZSetForRangeWithMinMax(ts, key, min, max, false)
 	if err != nil {
 		return 0, err
+	}
+	if keyInfo.Expired {
+		// nothing alive to remove
+		return 0, nil
 	}
 
 	it, err := db.NewDBRangeIterator(keyInfo.RangeStart, keyInfo.RangeEnd, rangeType, false)
